@@ -115,8 +115,9 @@ Print Assumptions C04_edit_excludes_only_that_event.
    root ids of the events excluded there by filter.manual[i] = False and not
    re-included since (g_excl), and of all events ever excluded there
    (g_ever).  For every root dataset, every history (any interleaving of
-   range edits, manual edits, temporary features, switches, growth and
-   rejuvenate on any level, depth up to 4) and every level of the resulting
+   range edits and deletions, manual edits, reset_filter(), temporary
+   features, switches, growth, reads and rejuvenate on any level, depth up
+   to 4; reset_filter() makes the intent of that level start over) and every level of the resulting
    chain:
      - an event of g_excl that is among the level's events is excluded in
        filter.manual;
@@ -255,13 +256,3 @@ Theorem C04_siblings_history_manual_exclusions :
   forall n cols ops, sib_inv (fst (sib_run (sib_init n cols) ops)).
 Proof. exact sib_history_inv. Qed.
 Print Assumptions C04_siblings_history_manual_exclusions.
-
-(* A read with an explicit dtype (np.asarray(child[feat], dtype=...), op
-   (3,2,level,feature,d) with d > 0) leaves exactly the state of a plain
-   read: the cache keeps the uncast array, so what later reads return does
-   not depend on it. *)
-Theorem C04_cast_read_same_state :
-  forall st b c d,
-    fst (step st (3, 2, b, c, d)) = fst (step st (3, 2, b, c, 0)).
-Proof. exact cast_read_same_state. Qed.
-Print Assumptions C04_cast_read_same_state.
